@@ -189,6 +189,7 @@ func run(r *vk.Runner) {
 	}
 	skeleton := map[string][2]string{
 		"top":              {`{"fVal":`, `}`},
+		"odd-name":         {`{"userID":`, `}`},
 		"nested":           {`{"holder":{"fVal":`, `}}`},
 		"flattened":        {`{"fVal":`, `,"other":"o"}`},
 		"arm-message":      {`{"w":{"!type":"holder","holder":{"fVal":`, `}}}`},
